@@ -22,15 +22,15 @@ from windpyutils.structures.sorted import SortedSet, SortedMap
 V = [-1, 0, 0.5, 1, 1.0, 2.5]
 VALS = ["x", "y"]
 PROBES = V + [-2, 0.75, 3]              # also numbers that are never stored: below, between, above
-FOREIGN = ["s", None, (1,)]
+FOREIGN = ["s", None, (1,)] + [float("nan")]     # NaN: numeric type, but it cannot be ordered against any content
 OPERAND_UNIVERSE = [-1, 0, 0.5, 1.0, 2.5]   # operands of the set operators (builtin frozensets over these)
 DEFAULT = "dflt"
 
 # the state of a correct implementation is (subset of 5 distinct keys, 1 stored as int or float[, value per key]):
 # 3 * 2**4 = 48 sets, 5 * 3**4 = 405 maps.  The caps only stop the search on a tree whose internal state grows
 # without bound (e.g. values left behind by __delitem__); hitting one is reported as not exhaustive.
-SET_STATE_CAP = 4 * 48
-MAP_STATE_CAP = 4 * 405
+SET_STATE_CAP = 4 * 48 * 4        # x4: the three copy-constructed sources are explored separately
+MAP_STATE_CAP = 4 * 405 * 4
 
 INPLACE = {"ior": (operator.ior, "|="), "iand": (operator.iand, "&="),
            "ixor": (operator.ixor, "^="), "isub": (operator.isub, "-=")}
@@ -76,18 +76,26 @@ class SortedSetSpec(Spec):
         yield {"kind": "none", "values": []}
         for n in range(self.max_init_len + 1):
             for vals in itertools.product(V, repeat=n):
-                for kind in ("list", "iter"):
+                for kind in ("list", "iter") + (("copy",) if list(vals) in ([], [0], [1, -1]) else ()):
                     yield {"kind": kind, "values": list(vals)}
 
     def build(self, init):
         vals = init["values"]
         kind = init["kind"]
+        self._src = None
         if kind == "noarg":
             r = observe(SortedSet)
         elif kind == "none":
             r = observe(SortedSet, None)
         elif kind == "list":
             r = observe(SortedSet, list(vals))
+        elif kind == "copy":
+            # the copy-constructor form: the source set must stay what it was, whatever is done to the copy
+            src = observe(SortedSet, list(vals))
+            if src[0] != "ok":
+                raise Mismatch("init-raises", "SortedSet(%r) -> %r" % (vals, src), {"op": "__init__", "init": init_class(vals)})
+            self._src = (src[1], sorted(set(vals)))
+            r = observe(SortedSet, src[1])
         else:
             r = observe(SortedSet, iter(list(vals)))
         if r[0] != "ok":
@@ -191,6 +199,11 @@ class SortedSetSpec(Spec):
 
     # ---- full observation
     def check(self, s, model):
+        if getattr(self, "_src", None) is not None:
+            got = observe(list, self._src[0])
+            if got[0] != "ok" or not same_seq(got[1], self._src[1]):
+                raise Mismatch("source-changed", "the set given to SortedSet(...) as initial values now holds %r, it held %r" % (
+                    got, self._src[1]), {"init_kind": "copy"})
         exp = sorted(model)
         r = observe(list, s)
         if r[0] != "ok":
@@ -226,6 +239,8 @@ class SortedSetSpec(Spec):
 
     def key(self, s, model):
         k = canon(s)
+        if getattr(self, "_src", None) is not None:
+            k = (k, "copy-of", canon(self._src[0]))      # histories on a copy are explored separately
         if len(model) >= 2:
             self.nontrivial_keys.add(k)     # counted here: explore() does not count initial states
         return k
@@ -242,6 +257,8 @@ class SortedSetSpec(Spec):
             return "SortedSet(None)"
         if k == "list":
             return "SortedSet(%r)" % (init["values"],)
+        if k == "copy":
+            return "SortedSet(src)   # src = SortedSet(%r), which must stay unchanged" % (init["values"],)
         return "SortedSet(iter(%r))" % (init["values"],)
 
     def snippet(self, init, hist):
@@ -296,6 +313,8 @@ class SortedMapSpec(Spec):
                 if rep not in seen:         # the same dict (same key objects, same order) is built once
                     seen.add(rep)
                     yield {"kind": "dict", "pairs": [list(p) for p in d.items()]}
+                    if [list(p) for p in d.items()] in ([], [[0, "x"]], [[1, "x"], [-1, "y"]]):
+                        yield {"kind": "copy", "pairs": [list(p) for p in d.items()]}     # SortedMap(SortedMap(...))
 
     @staticmethod
     def arg(kind, pairs):
@@ -312,10 +331,17 @@ class SortedMapSpec(Spec):
     def build(self, init):
         kind = init["kind"]
         pairs = [tuple(p) for p in init["pairs"]]
+        self._src = None
         if kind == "noarg":
             r = observe(SortedMap)
         elif kind == "none":
             r = observe(SortedMap, None)
+        elif kind == "copy":
+            src = observe(SortedMap, self.arg("dict", pairs))
+            if src[0] != "ok":
+                raise Mismatch("init-raises", "SortedMap(%r) -> %r" % (dict(pairs), src), {"op": "__init__", "init_kind": "mapping"})
+            self._src = (src[1], sorted(dict(pairs).items()))
+            r = observe(SortedMap, src[1])
         else:
             r = observe(SortedMap, self.arg(kind, pairs))
         model = dict(pairs)
@@ -421,6 +447,13 @@ class SortedMapSpec(Spec):
         return model
 
     def check(self, m, model):
+        if getattr(self, "_src", None) is not None:
+            got = observe(lambda: list(zip(self._src[0].keys_storage, self._src[0].values_storage))
+                          if hasattr(self._src[0], "keys_storage") else sorted(self._src[0].items()))
+            if got[0] != "ok" or not same_seq([k for k, _ in got[1]], [k for k, _ in self._src[1]]) \
+                    or [v for _, v in got[1]] != [v for _, v in self._src[1]]:
+                raise Mismatch("source-changed", "the map given to SortedMap(...) as initial values now holds %r, it held %r" % (
+                    got, self._src[1]), {"init_kind": "copy"})
         exp_keys = sorted(model)
         exp_items = [(k, model[k]) for k in exp_keys]
         r = observe(list, m)
@@ -481,6 +514,8 @@ class SortedMapSpec(Spec):
 
     def key(self, m, model):
         k = canon(m)
+        if getattr(self, "_src", None) is not None:
+            k = (k, "copy-of", canon(self._src[0]))      # histories on a copy are explored separately
         if len(model) >= 2:
             self.nontrivial_keys.add(k)     # counted here: explore() does not count initial states
         return k
@@ -499,6 +534,8 @@ class SortedMapSpec(Spec):
             return "SortedMap({%s})" % ", ".join("%r: %r" % p for p in ps)
         if k == "pairs":
             return "SortedMap(%r)" % (ps,)
+        if k == "copy":
+            return "SortedMap(src)   # src = SortedMap({%s}), which must stay unchanged" % ", ".join("%r: %r" % p for p in ps)
         return "SortedMap(iter(%r))" % (ps,)
 
     def snippet(self, init, hist):
@@ -547,37 +584,48 @@ def run(report, tier):
                 "typed probes 's', None, (1,) answering absent with the canonical state unchanged); every initialiser "
                 "is additionally built and evaluated once; non-trivial = distinct reachable state with >= 2 keys"
                 % len(PROBES))
-    sset = SortedSetSpec(max_init_len + (1 if quick else 0), operands)     # a value repeated three times needs length 3
-    smap = SortedMapSpec(max_init_len, max_update_len)
-    n_set_inits = sum(1 for _ in sset.initials())
-    n_map_inits = sum(1 for _ in smap.initials())
-    res = explore(sset, report, max_depth=None, max_states=SET_STATE_CAP)
-    report.cov["parts"][-1].update(initialisers_built=n_set_inits, max_init_len=max_init_len, alphabet=[repr(v) for v in V],
-                                   operator_operands=len(operands))
-    report.add(evaluations=n_set_inits, traces_validated_against_impl=n_set_inits)
-    report.nontrivial_n(len(sset.nontrivial_keys))
-    res2 = explore(smap, report, max_depth=None, max_states=MAP_STATE_CAP)
-    report.cov["parts"][-1].update(initialisers_built=n_map_inits, max_init_len=max_init_len, values=VALS,
-                                   update_operands=len(smap.updates), max_update_len=max_update_len)
-    report.add(evaluations=n_map_inits, traces_validated_against_impl=n_map_inits)
-    report.nontrivial_n(len(smap.nontrivial_keys))
-    # anti-vacuity: the reachable graphs must be the complete ones for the alphabet (unless initialisers failed)
-    for part, r_, cap in ((report.cov["parts"][-2], res, SET_STATE_CAP), (report.cov["parts"][-1], res2, MAP_STATE_CAP)):
-        part["state_cap"] = cap
-        if not r_["closed"]:    # only a defective tree gets here (stale internal state makes the graph infinite)
+    set_len = max_init_len + (1 if quick else 0)      # a value repeated three times needs length 3
+
+    def mk(which):
+        if which == "set":
+            return SortedSetSpec(set_len, operands), SET_STATE_CAP
+        if which == "map":
+            return SortedMapSpec(max_init_len, max_update_len), MAP_STATE_CAP
+        if which == "set-sparse":
+            return SortedSetSpec(1, [], sparse=True), SET_STATE_CAP * 4
+        return SortedMapSpec(1, 0, sparse=True), MAP_STATE_CAP * 4
+
+    def work(which):
+        # one exploration per core; each is a complete, deterministic BFS of its own reachable graph
+        from mc.report import Report
+        sub = Report("C09", collect_only=True)
+        spec, cap = mk(which)
+        n_inits = sum(1 for _ in spec.initials())
+        res = explore(spec, sub, max_depth=None, max_states=cap)
+        part = sub.cov["parts"][-1]
+        part.update(initialisers_built=n_inits, state_cap=cap, alphabet=[repr(v) for v in V])
+        if which == "set":
+            part.update(max_init_len=set_len, operator_operands=len(operands))
+        elif which == "map":
+            part.update(max_init_len=max_init_len, values=VALS, update_operands=len(spec.updates), max_update_len=max_update_len)
+        if which in ("set", "map"):
+            sub.add(evaluations=n_inits, traces_validated_against_impl=n_inits)
+            sub.nontrivial_n(len(spec.nontrivial_keys))
+        if not res["closed"]:      # only a defective tree gets here (stale internal state makes the graph infinite)
             part["exhaustive"] = False
             part["cap_hit"] = "state cap %d reached: states beyond it were evaluated but not expanded" % cap
-            report.cov["exhaustive"] = False
-    # sparse mode (explicit look-ups as operations, no probe sweep after a step): catches state left behind by one
-    # look-up that the next one would otherwise overwrite
-    for spec, cap in ((SortedSetSpec(1, [], sparse=True), SET_STATE_CAP * 4), (SortedMapSpec(1, 0, sparse=True), MAP_STATE_CAP * 4)):
-        r3 = explore(spec, report, max_depth=None, max_states=cap)
-        if not r3["closed"]:
-            report.cov["parts"][-1]["exhaustive"] = False
-            report.cov["exhaustive"] = False
-    if (res["states"] < 48 or res2["states"] < 405) and not report.violations and not report.known_hits:
+            sub.cov["exhaustive"] = False
+        return which, res, sub.dump()
+
+    from mc.par import pmap
+    results = {}
+    for which, res, d in pmap(work, ["map", "set", "map-sparse", "set-sparse"]):
+        results[which] = res
+        report.merge(d)
+    # anti-vacuity: the reachable graphs must be the complete ones for the alphabet (unless initialisers failed)
+    if (results["set"]["states"] < 48 or results["map"]["states"] < 405) and not report.violations and not report.known_hits:
         report.harness_error("C09: fewer distinct states than subsets of the alphabet (%d sets, %d maps): vacuous driver"
-                             % (res["states"], res2["states"]))
+                             % (results["set"]["states"], results["map"]["states"]))
 
 
 def replay(rec):
